@@ -109,9 +109,29 @@ class Arm:
         self.astv = astv
         fn = e2.find1(mir, file=file, name=fnname)
         self.ast_ref = Ref(ex.new_cell(st, astv))
-        args = [self.ast_ref, Ref(ex.new_cell(st, Opq(z3.Const("imp", Val), "Imports"))),
+        self.imp_ref = Ref(ex.new_cell(st, Opq(z3.Const("imp", Val), "Imports")))
+        args = [self.ast_ref, self.imp_ref,
                 Ref(ex.new_cell(st, self.state_agg)), Ref(ex.new_cell(st, Opq(z3.Const("ctx", Val), "Context")))]
         self.ends = e2.run_kernel(run, ex, fn, args, st)
+
+    def foreign_imports(self):
+        """Calls on any path of this arm that are handed an import accumulator other than the arm's own `imp`: [(path, event, index)]."""
+        out = []
+        for p in self.ends:
+            for ev in p.events:
+                for i, a in enumerate(ev["args"]):
+                    if not isinstance(a, Ref) or a.cell == self.imp_ref.cell:
+                        continue
+                    try:
+                        v = self.ex.read_ref(p.state, a)
+                    except Exception:
+                        continue
+                    pre = (ev.get("mut_pre") or {}).get(i)
+                    for cand in (pre, v):
+                        if isinstance(cand, Opq) and cand.ty and cand.ty.strip().endswith("Imports"):
+                            out.append((p, ev, i))
+                            break
+        return out
 
     # ---- leaves
     def root_of(self, p, v):
